@@ -348,7 +348,6 @@ Fixpoint names_eqb (a b : list string) : bool :=
 Definition chk_levels (p : profile) (v h m : Z) (obs : list (string * Z)) : bool :=
   forallb (fun kv => match lookup (fst kv) (skill_levels_of p v h m) with Some x => (x =? snd kv)%Z | None => false end) obs
   && forallb (fun kv => match lookup (fst kv) obs with Some _ => true | None => false end) (skill_levels_of p v h m).
-Definition badf {A} (f : A -> bool) (l : list (nat * A)) : list nat := map fst (filter (fun x => negb (f (snd x))) (map (fun x => (fst x, x)) (map (fun x => (fst x, snd x)) l))).
 Definition bad_ids {A} (chk : nat * A -> bool) (l : list (nat * A)) : list nat := map fst (filter (fun x => negb (chk x)) l).
 """
 
@@ -442,7 +441,16 @@ def prepare_meta(meta):
     META = dict(meta)
     META["figures_by_job"] = {j: [g for g in meta["figures"] if g["job"] == j] for j in JOBS}
     META["sblocks_by_job"] = {j: [b for b in meta["sblocks"] if b["job"] == j] for j in JOBS}
+    warm()
     return META
+
+
+def warm():
+    """load the specification repository and the component classes once, BEFORE the pool forks"""
+    import simaple.simulate.kms  # noqa: F401
+    from simaple.container.simulation import get_skill_components  # noqa: F401
+    from simaple.data.jobs import builtin
+    builtin.get_kms_jobs_repository()
 
 
 def cfg_key(cfg):
